@@ -136,6 +136,15 @@ def programs(prep):
         clsT = "class T { @tracked public qubit q; public constructor() -> T = default; public function go() -> void { %s } }\n" % g1
         progs.append(Prog("stale-handle-then-tracked-field:%s,%s" % (h0, h1), leak + clsT + "function main() -> void { %squbit s = mk(); %s T t = new T(); t.go(); echo(\"e\"); }" % (pad, s0),
                           [(None, [h0]), ("T.q", [h1])], 1))
+    # (seeds C17-6, C06-3) ... and the stale handle is gone again before the tracked declaration, so the tracked qubit really gets the slot
+    # that was measured after its release
+    for h0, h1 in itertools.product(["M", "MRM"], HIST):
+        s0, _ = hist_stmts("s", h0, prep or "x")
+        b1, _ = hist_stmts("q", h1, prep)
+        progs.append(Prog("stale-handle-out-of-scope-then-tracked:%s,%s" % (h0, h1), leak + "function probe() -> void { qubit s = mk(); %s }\nfunction main() -> void { %sprobe(); @tracked qubit q; %s echo(\"e\"); }" % (s0, pad, b1),
+                          [(None, [h0]), ("qubit q", [h1])], 1))
+        progs.append(Prog("stale-handle-block-then-tracked-loop:%s,%s" % (h0, h1), leak + "function main() -> void { %s{ qubit s = mk(); %s } for (int i = 0; i < 2; i = i + 1) { @tracked qubit q; %s } echo(\"e\"); }" % (pad, s0, b1),
+                          [(None, [h0]), ("qubit q", [h1]), ("qubit q", [h1])], 1))
     # a tracked field whose object is kept alive only by a dropped cycle of plain objects: it ends when the collector reclaims the cycle
     # (at the latest in the collection execute() performs before it returns), and that end counts like any other
     for h in HIST:
@@ -379,7 +388,7 @@ def main(tier):
                 base = p.expected
                 p.expected = (lambda b: (lambda outs: b([1] * len(outs))))(base)
         ps = [p for p in ps if not p.name.startswith("generic-two-instantiations")]    # two table names are acceptable there; compared at evaluator level only
-        sel = ps if tier == "thorough" else [p for p in ps if p.name.split(":")[0] in ("main", "for2", "helper2", "field-overwrite", "field-null", "two-sites", "array-measure-all", "block", "untracked", "field-reuse", "local-after-release", "borrow-array-after", "borrow-qubit", "stale-handle-then-tracked", "stale-handle-then-tracked-field", "field-owned-by-dropped-cycle", "inherited-field", "multi-declaration", "alive-at-end-static-held", "measured-by-later-declared-destructor", "measured-by-earlier-declared-destructor", "alive-at-end-cycle", "alive-at-end-cycle-of-subclass", "dropped-cycle-of-subclass", "tracked-static-field", "same-name-field-in-subclass") or p.name.startswith("array:M")]
+        sel = ps if tier == "thorough" else [p for p in ps if p.name.split(":")[0] in ("main", "for2", "helper2", "field-overwrite", "field-null", "two-sites", "array-measure-all", "block", "untracked", "field-reuse", "local-after-release", "borrow-array-after", "borrow-qubit", "stale-handle-then-tracked", "stale-handle-then-tracked-field", "stale-handle-out-of-scope-then-tracked", "stale-handle-block-then-tracked-loop", "field-owned-by-dropped-cycle", "inherited-field", "multi-declaration", "alive-at-end-static-held", "measured-by-later-declared-destructor", "measured-by-earlier-declared-destructor", "alive-at-end-cycle", "alive-at-end-cycle-of-subclass", "dropped-cycle-of-subclass", "tracked-static-field", "same-name-field-in-subclass") or p.name.startswith("array:M")]
         modes = [("none", None, None)] + [("flag", n, None) for n in (1, 2, 3)] + [("ann", None, n) for n in (1, 2, 3)] + [("both-eq", 2, 2), ("both-diff", 3, 2), ("both-diff", 1, 3), ("both-diff", 2, 1)]
         echos = [None, "auto", "all", "none"]
         for p in sel:
